@@ -7,10 +7,10 @@ import G3D.Proofs.K4f
 import G3D.Proofs.K4l
 import G3D.Proofs.EulerAllProof
 import G3D.Proofs.Euler7
-/-! # C03 — ConvexPolygon / ConvexPolyhedron × ConvexPolygon / ConvexPolyhedron  (partial)
-    Proved: polygon × polygon EXACT in every relative position (kernels K0, K1, K2, K6); soundness of every pair.
-    Completeness of polygon × polyhedron (K3) and polyhedron × polyhedron (K3, K4) is not proved; decided on every
-    run by the correspondence against exact vertex enumeration. -/
+/-! # C03 — ConvexPolygon / ConvexPolyhedron × ConvexPolygon / ConvexPolyhedron  (full)
+    polygon × polygon EXACT in every relative position (K0, K1, K2, K6); polygon × polyhedron EXACT (K3 plane section ∘ K0/K1/K2);
+    polyhedron × polyhedron EXACT and TOTAL (K4 + Euler's polyhedron formula, `Proofs/K4*.lean`, `Euler*.lean`): the result is
+    again an admissible operand.  Hypothesis on polyhedra: `ExactHyp` (no coplanar neighbouring faces). -/
 namespace G3D.Props.C03
 open G3D V3
 
